@@ -331,6 +331,7 @@ func c06Gen(r *Rng, i int, tier string) any {
 	default:
 		in.Pass = true
 		in.Undo = r.Chance(30)
+		in.Final = r.Chance(30) // a final target cursor
 	}
 	in.Forked = r.Chance(55)
 	if r.Chance(25) {
